@@ -506,6 +506,25 @@ func TestReplay(t *testing.T) {
 		t.Skip("no VERIF_REPLAY")
 	}
 	fmt.Println("REPLAYED structured")
+	if rp.Test == "TestClientAgainstServer" {
+		var c stackCaseT
+		if err := json.Unmarshal(rp.Case, &c); err != nil {
+			t.Fatal(err)
+		}
+		for i := 0; i < 3; i++ {
+			msg, infra := runStackCase(c)
+			if infra != nil {
+				t.Skipf("no verdict: %v", infra)
+			}
+			if msg == "" {
+				return
+			}
+			if i == 2 {
+				t.Fatalf("property C16 violated: %s (3/3)", msg)
+			}
+		}
+		return
+	}
 	if rp.Test == "TestRenewalSchedule" {
 		var c schedCase
 		if err := json.Unmarshal(rp.Case, &c); err != nil {
